@@ -151,6 +151,48 @@ def main(inp, outp):
             clause("IAU-1980 and IAU-2010 chains agree within 0.1 arcsec (+0.03 arcsec frame bias)", ang <= 0.13, "frames/iau-chains",
                    f"GCRF->EME2000 through both chains rotates by {ang:.4f} arcsec at {dspec} labelled {scale} [{job['eop']}]",
                    {"date": dspec, "scale": scale, "eop": job["eop"]})
+    # ---- independent formulas: Earth rotation angle (IAU 2000, a linear function of the UT1 Julian date) for TIRF <-> CIRF, and the
+    #      IAU 1976 precession angles (cubic polynomials of TT centuries) for EME2000 <-> MOD
+    def r1(a):
+        return np.array([[1, 0, 0], [0, np.cos(a), np.sin(a)], [0, -np.sin(a), np.cos(a)]])
+
+    def r2(a):
+        return np.array([[np.cos(a), 0, -np.sin(a)], [0, 1, 0], [np.sin(a), 0, np.cos(a)]])
+
+    def r3(a):
+        return np.array([[np.cos(a), np.sin(a), 0], [-np.sin(a), np.cos(a), 0], [0, 0, 1]])
+
+    def posmap(src, dst, date):
+        cols = []
+        for k in range(3):
+            e = np.zeros(6)
+            e[k] = 1.0e7
+            cols.append(np.asarray(StateVector(e, date, "cartesian", src).copy(frame=dst), float)[:3] / 1.0e7)
+        return np.array(cols).T
+    for dspec in job["dates"]:
+        date = Date(*dspec)
+        for scale in ("UTC", "TT", "GPS"):
+            dlab = date if scale == "UTC" else date.change_scale(scale)
+            ut1 = date.change_scale("UT1")
+            tu = (ut1.d - 51544) + (ut1.s - 43200.0) / 86400.0                     # days of UT1 since J2000.0
+            era = 2 * np.pi * ((0.7790572732640 + 0.00273781191135448 * tu + (tu % 1.0)) % 1.0)
+            got = posmap("TIRF", "CIRF", dlab)
+            want = r3(-era)
+            ang = np.degrees(np.linalg.norm(got @ want.T - np.identity(3)) / np.sqrt(2)) * 3600      # small-angle measure (arccos has a 0.004 arcsec floor)
+            res["evaluations"] += 1
+            clause("TIRF -> CIRF is the rotation by the Earth rotation angle of the IAU 2000 definition (0.001 arcsec)", ang <= 1e-3, "frames/era",
+                   f"at {dspec} labelled {scale} [{job['eop']}]: {ang:.5f} arcsec from R3(-ERA)", {"date": dspec, "scale": scale, "eop": job["eop"]})
+            tt = date.change_scale("TT")
+            T = ((tt.d - 51544) + (tt.s - 43200.0) / 86400.0) / 36525.0
+            asec = np.pi / 180 / 3600
+            zeta = (2306.2181 * T + 0.30188 * T ** 2 + 0.017998 * T ** 3) * asec
+            theta = (2004.3109 * T - 0.42665 * T ** 2 - 0.041833 * T ** 3) * asec
+            z = (2306.2181 * T + 1.09468 * T ** 2 + 0.018203 * T ** 3) * asec
+            wantp = r3(-z) @ r2(theta) @ r3(-zeta)
+            gotp = posmap("EME2000", "MOD", dlab)
+            angp = np.degrees(np.linalg.norm(gotp @ wantp.T - np.identity(3)) / np.sqrt(2)) * 3600
+            clause("EME2000 -> MOD is the IAU 1976 precession (0.001 arcsec)", angp <= 1e-3, "frames/precession",
+                   f"at {dspec} labelled {scale}: {angp:.5f} arcsec from R3(-z) R2(theta) R3(-zeta)", {"date": dspec, "scale": scale})
     # ---- histories: a conversion is a function of (frames, date, EOP in force) - not of what was converted before ------------------
     if job.get("histories", True) and job["dates"]:
         from beyond.dates.eop import EopDb, Eop, register
